@@ -39,6 +39,7 @@ fn first_int(s: &str) -> u64 {
 }
 
 pub const ORIGINAL: &str = "original-panic-payload";
+thread_local! { static START_DEFAULT: std::cell::Cell<bool> = std::cell::Cell::new(false); }     // alternate the two ways of making an accumulator
 
 /// Apply one operation; returns the observed result in the spec's Res shape.
 pub fn apply(acc: &mut Option<Accumulator>, op: &Value, ids: &[String]) -> Value {
@@ -66,7 +67,8 @@ pub fn apply(acc: &mut Option<Accumulator>, op: &Value, ids: &[String]) -> Value
         },
         "extend" => {
             let es: Vec<Error> = op["es"].as_array().unwrap().iter().map(|x| mk(x.as_str().unwrap())).collect();
-            acc.as_mut().unwrap().extend(es);
+            // every other call through an iterator that does not know its length (size_hint = (0, Some(n)))
+            if es.len() % 2 == 0 { acc.as_mut().unwrap().extend(es.into_iter().filter(|_| true)); } else { acc.as_mut().unwrap().extend(es); }
             unit
         }
         "finish_with" => match acc.take().unwrap().finish_with(v) {
@@ -115,7 +117,7 @@ fn same(exp: &Value, obs: &Value) -> bool {
 
 pub fn replay_one(case: &Value, ids: &[String]) -> crate::erralg::Outcome {
     let mut out = crate::erralg::Outcome { prop: vec![], model: vec![] };
-    let mut acc = Some(Error::accumulator());
+    let mut acc = Some(if START_DEFAULT.with(|c| { let v = c.get(); c.set(!v); v }) { Accumulator::default() } else { Error::accumulator() });
     for (i, h) in case["hist"].as_array().unwrap().iter().enumerate() {
         let r = catch(std::panic::AssertUnwindSafe(|| apply(&mut acc, &h["op"], ids)));
         match r {
@@ -156,7 +158,7 @@ pub fn replay_one(case: &Value, ids: &[String]) -> crate::erralg::Outcome {
 pub fn record(rng: &mut Rng, ops: usize, out: &mut Vec<Value>) {
     let ids: Vec<String> = ["e1", "e2", "e4", "b3"].iter().map(|s| s.to_string()).collect();
     out.push(json!({"op": {"name": "reset", "e": "", "v": 0, "es": []}, "res": {"t": "unit", "v": 0, "es": [], "n": 0}}));
-    let mut acc = Some(Error::accumulator());
+    let mut acc = Some(if START_DEFAULT.with(|c| { let v = c.get(); c.set(!v); v }) { Accumulator::default() } else { Error::accumulator() });
     for k in 0..ops {
         let last = k + 1 == ops;
         let e = rng.pick(&ids).clone();
